@@ -234,6 +234,29 @@ Arguments aa_num_data_series {F L} _.
 Arguments aa_rho {F L} _.
 Arguments aa_sparsity_weight {F L} _.
 
+(* ---- dictionaries with integer keys (insertion order is not observable in the translated code) ---- *)
+Definition py_dict_get {V : Type} (d : list (Z * V)) (k : Z) : res V :=
+  match find (fun kv => fst kv =? k) d with
+  | Some kv => Ret (snd kv)
+  | None => Raise "KeyError"
+  end.
+Definition py_dict_set {V : Type} (d : list (Z * V)) (k : Z) (v : V) : list (Z * V) :=
+  (k, v) :: filter (fun kv => negb (fst kv =? k)) d.
+
+(* the fields of ModelState / ClusterParameters that cluster_metrics.bayesian_information_criterion reads;
+   M is the type of 2-D float arrays (opaque) *)
+Record bic_cluster (M : Type) : Type := mk_bic_cluster { bc_train_inverse : M; bc_empirical_covariance : M }.
+Arguments mk_bic_cluster {M} _ _.
+Arguments bc_train_inverse {M} _.
+Arguments bc_empirical_covariance {M} _.
+Record bic_args : Type := mk_bic_args { ba_num_clusters : Z }.
+Record bic_model (M : Type) : Type := mk_bic_model {
+  bm_arguments : bic_args; bm_clusters : list (bic_cluster M); bm_point_labels : list Z }.
+Arguments mk_bic_model {M} _ _ _.
+Arguments bm_arguments {M} _.
+Arguments bm_clusters {M} _.
+Arguments bm_point_labels {M} _.
+
 (* ---- facts used by every equivalence proof ---- *)
 Lemma bind_ret {A B : Type} (a : A) (f : A -> res B) : bind (Ret a) f = f a.
 Proof. reflexivity. Qed.
